@@ -25,6 +25,11 @@
 (* d0, d1, ... (values `data`, written in hexadecimal); it is placed in    *)
 (* the ROM right after the processor's code, so the address of d<k> is the  *)
 (* number of instructions of the section (after macro expansion) plus k.   *)
+(* With WideData a variable d<k> is declared with a list of values,        *)
+(* possibly repeated (`d<k> 3:db a, b` lays out a, b, a, b, a, b); the     *)
+(* variables follow one another in the ROM and an ldk line carries the     *)
+(* offset of the word it reads inside its variable: mov rB, rom:d<k> ;     *)
+(* inc rB (offset times) ; mov rA, rom:[rB].                               *)
 (* With sharecode both processors are defined on the same code section     *)
 (* and each has its own data section.                                      *)
 (*                                                                         *)
@@ -50,7 +55,8 @@
 (***************************************************************************)
 EXTENDS Integers, Sequences, FiniteSets, TLC
 
-CONSTANTS RSize, Len0, Budget, NOut, NCP, NData, EntryAnywhere, DirectiveAnywhere, MacroHeavy, SmallMovOnly
+CONSTANTS RSize, Len0, Budget, NOut, NCP, NData, EntryAnywhere, DirectiveAnywhere, MacroHeavy, SmallMovOnly,
+          WideData   \* TRUE: a data variable may hold several words (`d db a, b`) and repetitions (`d 3:db a, b`)
 
 ASSUME NCP \in {1, 2} /\ (NCP = 2 => NOut = 2)
 
@@ -83,10 +89,17 @@ Plain  == Unary \cup Binary \cup Loads \cup Other
 Jumps == {L("j", 0, 0, t, "") : t \in 0 .. Len0 - 1} \cup {L("jz", a, 0, t, "") : a \in Regs, t \in 0 .. Len0 - 1}
 Sends == {L("send", o, b, 0, "") : o \in 0 .. NOut - 1, b \in Regs}
 Recvs == {L("recv", a, 0, 0, "") : a \in Regs}
-DataLines == {L("ldk", a, b, k, "") : a \in Regs, b \in Regs, k \in 0 .. NData - 1}
 DataSeq == <<0, 1, 5, 33, 128, 255>>
-\* the data words of processor c for seed d (a few assignments stand for all)
-DataOf(d) == [c \in CPs |-> [k \in 0 .. NData - 1 |-> DataSeq[((d + 2 * c + k) % 6) + 1]]]
+\* the data variables of processor c for seed d (a few assignments stand for all): the declared values
+\* and the repetition count; the shapes do not depend on the processor (shared code reads both)
+NVals(d, k) == IF WideData THEN <<1, 2, 2, 3>>[((d + k) % 4) + 1] ELSE 1
+NRep(d, k)  == IF WideData THEN <<1, 1, 3, 2>>[((d + k) % 4) + 1] ELSE 1
+DataOf(d) == [c \in CPs |-> [k \in 0 .. NData - 1 |->
+                [vals |-> [j \in 1 .. NVals(d, k) |-> DataSeq[((d + 2 * c + k + 3 * (j - 1)) % 6) + 1]], rep |-> NRep(d, k)]]]
+\* the ROM words of a variable, in order
+Layout(dv) == [i \in 1 .. Len(dv.vals) * dv.rep |-> dv.vals[((i - 1) % Len(dv.vals)) + 1]]
+Offs == <<"", "1", "2", "3", "4", "5">>            \* the offset of an ldk line is carried in its nt field
+OffOf(nt) == CHOOSE o \in 0 .. 5 : Offs[o + 1] = nt
 
 M0 == [pc |-> 0, regs |-> [r \in Regs |-> 0], nin |-> 0]
 I0 == [cps |-> [c \in CPs |-> M0], outs |-> <<>>]
@@ -119,7 +132,8 @@ BuildMacro == Add(L("twice", 0, 0, 0, ""), FALSE)
 BuildJump == \E l \in Jumps : Add(l, FALSE)
 BuildSend == \E l \in Sends : Add(l, TRUE)
 BuildRecv == \E l \in Recvs : Add(l, TRUE)
-BuildData == \E l \in DataLines : Add(l, FALSE)
+DataLines == {L("ldk", a, b, k, Offs[o + 1]) : a \in Regs, b \in Regs, k \in 0 .. NData - 1, o \in 0 .. 5}
+BuildData == \E l \in DataLines : OffOf(l.nt) < Len(Layout(data[0][l.t])) /\ Add(l, FALSE)
 
 \* the last line is an unconditional jump: a program never runs off its end
 Close ==
@@ -149,10 +163,13 @@ Line(c, m) == progs[c + 1][m.pc + 1]
 IsLinkSend(c, l) == NCP = 2 /\ c = 0 /\ l.op = "send" /\ l.a = 1
 IsLinkRecv(c, l) == NCP = 2 /\ c = 1 /\ l.op = "recv"
 ExtPort(c, o) == IF NCP = 1 THEN o ELSE IF c = 0 THEN 0 ELSE 1 + o
-\* ROM words taken by the code of processor c: a macro call and an ldk are two instructions
+\* ROM words taken by the code of processor c: a macro call is two instructions, an ldk two plus its offset
 RECURSIVE Words(_, _)
-Words(p, i) == IF i > Len(p) THEN 0 ELSE (IF p[i].op \in {"twice", "ldk"} THEN 2 ELSE 1) + Words(p, i + 1)
-DataAddr(c, k) == (Words(progs[c + 1], 1) + k + (IF sharecode /\ c = 1 THEN 1 ELSE 0)) % Mod
+Words(p, i) == IF i > Len(p) THEN 0
+               ELSE (IF p[i].op = "twice" THEN 2 ELSE IF p[i].op = "ldk" THEN 2 + OffOf(p[i].nt) ELSE 1) + Words(p, i + 1)
+RECURSIVE Before(_, _)
+Before(c, k) == IF k = 0 THEN 0 ELSE Len(Layout(data[c][k - 1])) + Before(c, k - 1)
+DataAddr(c, k) == (Words(progs[c + 1], 1) + Before(c, k) + (IF sharecode /\ c = 1 THEN 1 ELSE 0)) % Mod
 
 \* one line executed by processor state m; inval is the value a receive obtains
 Step(c, m, inval) ==
@@ -166,7 +183,7 @@ Step(c, m, inval) ==
                   [] l.op \in {"rset", "movri"} -> [regs EXCEPT ![l.a] = l.b]
                   [] l.op = "twice" -> [regs EXCEPT ![1] = (@ + 2) % Mod]
                   [] l.op = "recv" -> [regs EXCEPT ![l.a] = inval]
-                  [] l.op = "ldk" -> [[regs EXCEPT ![l.b] = DataAddr(c, l.t)] EXCEPT ![l.a] = data[c][l.t]]
+                  [] l.op = "ldk" -> [[regs EXCEPT ![l.b] = (DataAddr(c, l.t) + OffOf(l.nt)) % Mod] EXCEPT ![l.a] = Layout(data[c][l.t])[OffOf(l.nt) + 1]]
                   [] OTHER -> regs,
        nin  |-> IF l.op = "recv" /\ ~IsLinkRecv(c, l) THEN m.nin + 1 ELSE m.nin,
        pc   |-> CASE l.op = "j" -> l.t
